@@ -272,6 +272,8 @@ fn run(ctx: &mut Ctx) {
             cross_env_iff(ctx, &sp);
         }
     }
+    let spf = Space::<usize>::by_foreign(&[1, 4, 6]);
+    sweep_api(ctx, &spf, "foreign", ORACLE, IteMode::None, TAG);
     // (1b) evaluator closure (NamedSymbol order with gaps; quantifier and counting detours)
     for k in [2usize, 3] {
         let mut es = discover_eval(ctx, k, ORACLE, TAG);
@@ -292,6 +294,7 @@ fn run(ctx: &mut Ctx) {
             }
         }
     }
+    sweep_family6(ctx, ORACLE, TAG);
     ctx.global("states", states);
 }
 
@@ -317,6 +320,7 @@ fn replay(ctx: &mut Ctx, case: &Value) {
             }
         }
         Some("eval-node") | Some("eval-init") => replay_eval(ctx, case, ORACLE, TAG),
+        Some("family6") => replay_family6(ctx, case, ORACLE, TAG),
         _ => replay_api(ctx, case, ORACLE, TAG),
     }
 }
